@@ -247,6 +247,13 @@ def r01_5(ctx):
             for p in n["pat"]["pats"]:
                 if p.get("k") == "PBind" and (p.get("ty") or "") == "alloc::vec::Vec<%sPropOrSpread>" % AST:
                     acc = p
+    if acc is None:
+        # loop form: `let mut props = Vec::..;` at the top level of the function (not inside the per-attribute step)
+        cl = _fold_closure(fold)
+        inside_step = {id(x) for x in walk(cl["body"])} if cl is not None else set()
+        for n in walk(fold["body"], enter_closures=False):
+            if n.get("k") == "Let" and id(n) not in inside_step and n["pat"].get("k") == "PBind" and (n["pat"].get("ty") or "") == "alloc::vec::Vec<%sPropOrSpread>" % AST:
+                acc = acc or n["pat"]
     asm = None
     for n in walk(fold["body"], enter_closures=False):
         if n.get("k") == "Let" and n.get("init") is not None and n["pat"].get("k") == "PBind" and (n["pat"].get("ty") or "") == AST + "Expr" \
